@@ -886,14 +886,19 @@ package builder
 //@   modifies mapof(p.cur.globalStore)
 //@ #endif
 //@   panics [user] true
-//@ extern andCodeExpr.run(p *parser) (b bool, err error)
+// C06's hypothesis on user code: the answer of a code predicate is a function of the predicate, of its own labels
+// (the current scope) and of the position -- nothing else
+//@ spec func PredAns(e any, d set[string], v arr[string]any, pos position) bool
+//@ extern andCodeExpr.run(owner *andCodeExpr, p *parser) (b bool, err error)
+//@   ensures [pure-fn] len(p.vstack) >= 1 ==> b == PredAns(owner, mapdom(p.vstack[len(p.vstack)-1]), mapval(p.vstack[len(p.vstack)-1]), p.cur.pos)
 //@ #if state
 //@   modifies mapof(p.cur.state), mapof(p.cur.globalStore)
 //@ #else
 //@   modifies mapof(p.cur.globalStore)
 //@ #endif
 //@   panics [user] true
-//@ extern notCodeExpr.run(p *parser) (b bool, err error)
+//@ extern notCodeExpr.run(owner *notCodeExpr, p *parser) (b bool, err error)
+//@   ensures [pure-fn] len(p.vstack) >= 1 ==> b == PredAns(owner, mapdom(p.vstack[len(p.vstack)-1]), mapval(p.vstack[len(p.vstack)-1]), p.cur.pos)
 //@ #if state
 //@   modifies mapof(p.cur.state), mapof(p.cur.globalStore)
 //@ #else
@@ -937,6 +942,12 @@ package builder
 // a successful labeled expression leaves its label bound to its value in the current scope -- whichever way the
 // result was obtained (C02; C06: also when it comes from the memo table -- it does not: known finding F16)
 //@   ensures [bind C02 C06] ok && is(expr, "*labeledExpr") && as(expr, "*labeledExpr").label != "" ==> has(p.vstack[len(p.vstack)-1], as(expr, "*labeledExpr").label) && p.vstack[len(p.vstack)-1][as(expr, "*labeledExpr").label] == val
+// evaluating a terminal, however its result is obtained, performs its failure-record event (C12: the expected
+// set lists exactly the terminals that failed at the farthest offset; from the memo table it does not: F14)
+//@   ensures [event C12] (is(expr, "*anyMatcher") ==> FailEvent(p, ok, old(p.pt.position), ".")) && (is(expr, "*litMatcher") ==> FailEvent(p, ok, old(p.pt.position), as(expr, "*litMatcher").want)) && (is(expr, "*charClassMatcher") ==> FailEvent(p, ok, old(p.pt.position), as(expr, "*charClassMatcher").val))
+// a code predicate answers for the labels in scope NOW, however the result is obtained (C06: from the memo table
+// it is the answer for the labels that were in scope when the entry was made: known finding F4)
+//@   ensures [answer C06] (is(expr, "*andCodeExpr") ==> ok == PredAns(expr, mapdom(p.vstack[len(p.vstack)-1]), mapval(p.vstack[len(p.vstack)-1]), p.pt.position)) && (is(expr, "*notCodeExpr") ==> ok == !PredAns(expr, mapdom(p.vstack[len(p.vstack)-1]), mapval(p.vstack[len(p.vstack)-1]), p.pt.position))
 //@   ensures [stacks C02 C14] Stacks(p)
 //@   ensures [depth C06] DepthBal(p)
 //@   ensures [invert C12] p.maxFailInvertExpected == old(p.maxFailInvertExpected)
@@ -956,6 +967,12 @@ package builder
 // a successful labeled expression leaves its label bound to its value in the current scope -- whichever way the
 // result was obtained (C02; C06: also when it comes from the memo table -- it does not: known finding F16)
 //@   ensures [bind C02 C06] ok && is(expr, "*labeledExpr") && as(expr, "*labeledExpr").label != "" ==> has(p.vstack[len(p.vstack)-1], as(expr, "*labeledExpr").label) && p.vstack[len(p.vstack)-1][as(expr, "*labeledExpr").label] == val
+// evaluating a terminal, however its result is obtained, performs its failure-record event (C12: the expected
+// set lists exactly the terminals that failed at the farthest offset; from the memo table it does not: F14)
+//@   ensures [event C12] (is(expr, "*anyMatcher") ==> FailEvent(p, ok, old(p.pt.position), ".")) && (is(expr, "*litMatcher") ==> FailEvent(p, ok, old(p.pt.position), as(expr, "*litMatcher").want)) && (is(expr, "*charClassMatcher") ==> FailEvent(p, ok, old(p.pt.position), as(expr, "*charClassMatcher").val))
+// a code predicate answers for the labels in scope NOW, however the result is obtained (C06: from the memo table
+// it is the answer for the labels that were in scope when the entry was made: known finding F4)
+//@   ensures [answer C06] (is(expr, "*andCodeExpr") ==> ok == PredAns(expr, mapdom(p.vstack[len(p.vstack)-1]), mapval(p.vstack[len(p.vstack)-1]), p.pt.position)) && (is(expr, "*notCodeExpr") ==> ok == !PredAns(expr, mapdom(p.vstack[len(p.vstack)-1]), mapval(p.vstack[len(p.vstack)-1]), p.pt.position))
 //@   ensures [stacks C02 C14] Stacks(p)
 //@   ensures [depth C06] DepthBal(p)
 //@   ensures [invert C12] p.maxFailInvertExpected == old(p.maxFailInvertExpected)
@@ -1233,6 +1250,7 @@ package builder
 //@   ensures [state-always C05] StoreC(p, false)
 //@   ensures [store C05] StoreC(p, res)
 //@   ensures [scope C02] TopKept(p)
+//@   ensures [answer C06] res == PredAns(and, mapdom(p.vstack[len(p.vstack)-1]), mapval(p.vstack[len(p.vstack)-1]), p.pt.position)
 //@   ensures [stacks C02 C14] Stacks(p)
 //@   ensures [depth C06] DepthBal(p)
 //@   ensures [invert C12] p.maxFailInvertExpected == old(p.maxFailInvertExpected)
@@ -1257,6 +1275,7 @@ package builder
 //@   ensures [state-always C05] StoreC(p, false)
 //@   ensures [store C05] StoreC(p, res)
 //@   ensures [scope C02] TopKept(p)
+//@   ensures [answer C06] res == !PredAns(not, mapdom(p.vstack[len(p.vstack)-1]), mapval(p.vstack[len(p.vstack)-1]), p.pt.position)
 //@   ensures [stacks C02 C14] Stacks(p)
 //@   ensures [depth C06] DepthBal(p)
 //@   ensures [invert C12] p.maxFailInvertExpected == old(p.maxFailInvertExpected)
